@@ -97,7 +97,7 @@ PROPS['C16'] = dict(
 )
 
 PROPS['C18'] = dict(
-    unit_modules=[], driver_modules=['drivers.c18'], level='other',
+    unit_modules=['contracts.c18_dates'], driver_modules=['drivers.c18'], level='other',
     level_text='tbd', level_note='tbd', assumptions=COMMON_ASSUMPTIONS, driver_budget_s=150,
 )
 
